@@ -143,3 +143,33 @@ func vAuthShaped(ncred int) {
 func vH_C11_shaped_nocred() { vAuthShaped(0) }
 func vH_C11_shaped_1cred()  { vAuthShaped(1) }
 func vH_C11_shaped_2cred()  { vAuthShaped(2) }
+
+// Quick two-credential variant: both configured pairs have 1-byte user and
+// 1-byte password (symbolic contents), the client presents a 1-byte user and
+// password after offering 1 or 2 methods.  This keeps every string comparison
+// one byte wide - the cross-entry case (user of one pair, password of the
+// other) is still expressible - and is decided in seconds; the wider shapes are
+// the thorough harness vH_C11_shaped_2cred.
+func vH_C11_shaped_2cred_small() {
+	var creds []Credential
+	for i := 0; i < 2; i++ {
+		u, p := vNondetBytes("cred.user", 1), vNondetBytes("cred.pass", 1)
+		creds = append(creds, Credential{User: string(u), Password: string(p)})
+	}
+	for nm := 1; nm <= 2; nm++ {
+		s := &Server{config: &Config{AuthOpts: Auth{IngressCredentials: creds}}}
+		in := vNondetBytes("in", 2+nm+3+1+1)
+		o := 2 + nm
+		vAssume(in[0] == 5 && int(in[1]) == nm && in[o+1] == 1 && in[o+3] == 1)
+		conn := &vFakeConn{in: in}
+		if s.handleAuthentication(conn) != nil {
+			continue
+		}
+		vAssert(len(conn.out) == 4 && conn.out[0] == 5 && conn.out[1] == 2 && conn.out[2] == 1 && conn.out[3] == 0,
+			"credentials configured => method reply 05 02 then status 01 00")
+		vAssert(in[o] == 1, "credentials configured => sub-negotiation version 1")
+		m0 := creds[0].User[0] == in[o+2] && creds[0].Password[0] == in[o+4]
+		m1 := creds[1].User[0] == in[o+2] && creds[1].Password[0] == in[o+4]
+		vAssert(m0 || m1, "credentials configured => the presented user AND password equal ONE configured pair")
+	}
+}
